@@ -24,7 +24,8 @@ var Def = driver.PropDef{
 		"R1 transactional envelope (on the batched paths MULTI precedes every other Send, the offset HSET follows the data, EXEC follows the offset HSET and nothing is sent after it, one Flush after EXEC, one connection, every Send/Flush error is fatal, the only unbatched case is resume off or a lone ping, checkpoint key/field/value arguments); " +
 		"R2 offset provenance (the stored offset is cachedTunnel[len-1].Offset; every enqueue stamps ds.sourceOffset + this iteration's decoder position; no goroutine writes ds.sourceOffset while the parser reads it); " +
 		"R3 one database per batch (runIdMap keyed by the last command's Db; SELECT is a flushing barrier: barrier-before-append and the automaton's select rows, strict; injected SELECTs are barrier keys or only exist in fixed target-db mode); " +
-		"R5 resume wiring (LoadCheckpoint results flow to the PSYNC run id, ds.sourceOffset and ds.startDbId without being overwritten; sendPSyncCmd stores the offset SendPSyncContinue returns; SendPSyncContinue sends offset+1 unless -1 and returns the unincremented offset on CONTINUE; the start database is enqueued first).",
+		"R5 resume wiring (LoadCheckpoint results flow to the PSYNC run id, ds.sourceOffset and ds.startDbId without being overwritten; sendPSyncCmd stores the offset SendPSyncContinue returns; SendPSyncContinue sends offset+1 unless -1 and returns the unincremented offset on CONTINUE; the start database is enqueued first); " +
+		"R6 filtered stretch (every enqueue of the parser loop lies behind tests that found every drop flag -- above all the database verdict of the last SELECT -- false since the flag was last written: nothing is forwarded, and no checkpoint offset stamped, inside a filtered stretch of the stream).",
 	NotDecided: "the crash-consistency theorem itself (dataset at every cut = history up to the stored offset): it needs the target's MULTI/EXEC semantics and a model of partial delivery. R4 (writer/reader agreement of the checkpoint field names) is decided under C14.R1; only the writer's name construction is checked here.",
 	Trusted:    []string{"go/parser, go/types, go/cfg (x/tools v0.29.0)", "Redis MULTI/EXEC atomicity", "redigo Conn.Send/Flush preserve call order on one connection"},
 	Run:        Run,
@@ -46,6 +47,11 @@ func Run(c *core.Ctx) {
 		r3(c, s, p, env)
 	}
 	r5(c, p)
+	if p != nil {
+		// R6: no command is forwarded (and no checkpoint offset stamped) while a filter verdict says drop
+		c03.VerdictHonoured(c, p, "R6.filtered-stretch")
+		c.Expect("R6.filtered-stretch", 1)
+	}
 	c.Expect("R1.envelope", 25)
 	c.Expect("R2.offset", 8)
 	c.Expect("R3.one-db", 4)
@@ -74,6 +80,28 @@ type envelope struct {
 }
 
 // mentionsConst: e (after chasing locals) mentions the package-level constant pkgPath.name.
+// fieldName resolves the field-name argument of an HSET through a table of
+// names (`names[utils.CheckpointRunId]`, see c03.TableRead) when there is one.
+func fieldName(info *types.Info, s *c03.Sender, scope ast.Node, arg ast.Expr) ast.Expr {
+	if o, ok := c03.SoleOrigin(info, scope, arg); ok && o.Expr != nil && o.Op == 0 && !o.Range && o.Res < 0 {
+		if v := c03.TableRead(info, s.Fn.Decl, o.Expr); v != nil {
+			return v
+		}
+	} else if v := c03.TableRead(info, s.Fn.Decl, arg); v != nil {
+		return v
+	}
+	return arg
+}
+
+func anyLhs(as *ast.AssignStmt, pred func(ast.Expr) bool) bool {
+	for _, l := range as.Lhs {
+		if pred(l) {
+			return true
+		}
+	}
+	return false
+}
+
 func mentionsConst(c *core.Ctx, info *types.Info, scope ast.Node, e ast.Expr, name string) bool {
 	found := false
 	for _, o := range c03.Origins(info, scope, e) {
@@ -137,7 +165,7 @@ func r1(c *core.Ctx, s *c03.Sender) *envelope {
 	for _, hp := range hs {
 		call := x.XCmd(hp.Node(), "hset")
 		e.hsets = append(e.hsets, call)
-		if len(call.Args) == 4 && mentionsConst(c, info, scope, call.Args[2], "CheckpointOffset") {
+		if len(call.Args) == 4 && mentionsConst(c, info, scope, fieldName(info, s, scope, call.Args[2]), "CheckpointOffset") {
 			offs = append(offs, hp)
 			e.offCall = call
 		}
@@ -161,21 +189,59 @@ func r1(c *core.Ctx, s *c03.Sender) *envelope {
 			}
 		}
 	}
-	factIs := func(o types.Object, want bool) func(cfgq.Fact) bool {
-		return func(ft cfgq.Fact) bool { x, val := c03.BoolFact(info, ft); return x == o && val == want }
+	// ... or tested only inside closures of sendFunc (the variable is the same object there)
+	seenCtx := map[*c03.XCtx]bool{x.Root: true}
+	for _, pt := range x.Points(func(c03.XNode) bool { return true }) {
+		cx := pt.C
+		if seenCtx[cx] || cx.Fl == nil || cx.H == nil || cx.H.Lit == nil {
+			continue
+		}
+		seenCtx[cx] = true
+		for _, b := range cx.G.CFG.Blocks {
+			for si := range b.Succs {
+				for _, ft := range cx.Fl.Facts(b, si) {
+					if o, _ := c03.BoolFact(cx.Info, ft); o != nil && s.Lit.Pos() <= o.Pos() && o.Pos() < s.Lit.End() {
+						cands[o] = true
+					}
+				}
+			}
+		}
 	}
-	rootEdge := func(m func(cfgq.Fact) bool) func(*c03.XCtx, *cfg.Block, int) bool {
-		f := s.LFl.Edge(m)
-		return func(cx *c03.XCtx, b *cfg.Block, i int) bool { return cx == x.Root && f(b, i) }
+	// an edge, in any frame of the expansion, that establishes o == want: o is a local of the
+	// closure, so closures bound to locals see the same variable; helper functions see it through
+	// the parameter the call binds to it
+	rootEdge := func(o types.Object, want bool) func(*c03.XCtx, *cfg.Block, int) bool {
+		return func(cx *c03.XCtx, b *cfg.Block, i int) bool {
+			fl, ci := s.LFl, info
+			if cx != x.Root {
+				fl, ci = cx.Fl, cx.Info
+			}
+			if fl == nil {
+				return false
+			}
+			return fl.Edge(func(ft cfgq.Fact) bool {
+				ob, val := c03.BoolFact(ci, ft)
+				if ob == nil || val != want {
+					return false
+				}
+				if ob == o {
+					return true
+				}
+				if cx == x.Root {
+					return false
+				}
+				return c03.IsObj(info, o)(x.Resolve(cx, ft.Expr))
+			})(b, i)
+		}
 	}
 	for o := range cands {
-		if x.Path(c03.XQuery{AvoidEdge: rootEdge(factIs(o, true)), Target: e.isMulti}) == nil {
+		if x.Path(c03.XQuery{AvoidEdge: rootEdge(o, true), Target: e.isMulti}) == nil {
 			e.nb = o
 		}
 	}
 	e.nbFalse = func(*c03.XCtx, *cfg.Block, int) bool { return false }
 	if e.nb != nil {
-		e.nbFalse = rootEdge(factIs(e.nb, false))
+		e.nbFalse = rootEdge(e.nb, false)
 		// the flag is not rewritten once the envelope has begun
 		isSet := func(n c03.XNode) bool {
 			as, ok := n.N.(*ast.AssignStmt)
@@ -464,11 +530,13 @@ func hsetArgs(c *core.Ctx, s *c03.Sender, e *envelope) {
 		}
 		var role, want string
 		var okVal, unknownVal bool
+		// the field name, looked up through a table of names when there is one (`names[utils.CheckpointRunId]`)
+		nameArg := fieldName(info, s, scope, call.Args[2])
 		switch {
 		case call == e.offCall:
 			role, want = "offset", "the batch's offset variable"
 			okVal = true // provenance under R2
-		case mentionsConst(c, info, scope, call.Args[2], "CheckpointRunId"):
+		case mentionsConst(c, info, scope, nameArg, "CheckpointRunId"):
 			role, want = "runid", "ds.runId"
 			okVal = leafIs(info, scope, call.Args[3], func(x ast.Expr) bool { return c03.FieldIs(info, x, c03.Syncer, "runId") })
 			otherField := false // another field of the syncer (e.g. its id) is recognisably not the run id
@@ -479,7 +547,7 @@ func hsetArgs(c *core.Ctx, s *c03.Sender, e *envelope) {
 				return true
 			})
 			unknownVal = !okVal && !otherField
-		case mentionsConst(c, info, scope, call.Args[2], "CheckpointVersion"):
+		case mentionsConst(c, info, scope, nameArg, "CheckpointVersion"):
 			role, want = "version", "utils.FcvCheckpoint.CurrentVersion"
 			okVal = leafIs(info, scope, call.Args[3], func(x ast.Expr) bool { return pat.Expr("_u.FcvCheckpoint.CurrentVersion").Match(info, x, nil) != nil })
 			_, isConst := core.IntConst(info, call.Args[3])
@@ -502,7 +570,7 @@ func hsetArgs(c *core.Ctx, s *c03.Sender, e *envelope) {
 		}
 		// field name: fmt.Sprintf("%s-%s", ds.node.Source, utils.<const>)
 		okName := false
-		if o, ok := c03.SoleOrigin(info, scope, call.Args[2]); ok && o.Expr != nil {
+		if o, ok := c03.SoleOrigin(info, scope, nameArg); ok && o.Expr != nil {
 			okName = pat.Expr(`fmt.Sprintf("%s-%s", _ds.node.Source, _k)`).Match(info, o.Expr, nil) != nil ||
 				pat.Expr(`_ds.node.Source + "-" + _k`).Match(info, o.Expr, nil) != nil ||
 				pat.Expr(`fmt.Sprint(_ds.node.Source, "-", _k)`).Match(info, o.Expr, nil) != nil ||
@@ -645,24 +713,45 @@ func r2(c *core.Ctx, s *c03.Sender, p *c03.Parser, e *envelope) {
 				c.Failf(rule, key, q.Pos(), "the enqueued command carries no Offset: its batch stores offset 0")
 				continue
 			}
-			if _, isID := ast.Unparen(off).(*ast.Ident); isID {
-				// the value may be carried in a temporary
-				if o, ok := c03.SoleOrigin(info, p.Fn.Decl, off); ok && o.Expr != nil && o.Op == 0 && !o.Range && o.Res < 0 {
-					off = o.Expr
+			// the summands of the stamp (the value may be carried / built up in a temporary)
+			var use ast.Node
+			for _, pn := range core.PathTo(p.Fn.Decl.Body, off) {
+				if st, ok := pn.(ast.Stmt); ok {
+					if _, found := p.G.Find(st); found {
+						use = st
+					}
 				}
 			}
-			off = dropZeroTerms(info, off)
-			be, isSum := ast.Unparen(off).(*ast.BinaryExpr)
+			var terms []ast.Expr
+			for _, t := range c03.SumTerms(info, p.G, p.Fn.Decl, off, use) {
+				if v, ok := core.IntConst(info, t); ok && v == 0 {
+					continue
+				}
+				if _, isID := ast.Unparen(t).(*ast.Ident); isID {
+					if o, ok := c03.SoleOrigin(info, p.Fn.Decl, t); ok && o.Expr != nil && o.Op == 0 && !o.Range && o.Res < 0 && c03.IsSourceOffset(info, o.Expr) {
+						t = o.Expr // `base := ds.sourceOffset`
+					}
+				}
+				terms = append(terms, t)
+			}
 			isInc := c03.SameVar(info, p.Fn.Decl, p.Inc)
+			nBase, nInc := 0, 0
+			for _, t := range terms {
+				switch {
+				case c03.IsSourceOffset(info, t):
+					nBase++
+				case isInc(t):
+					nInc++
+				}
+			}
 			switch {
-			case !q.InLoop && c03.IsSourceOffset(info, off):
+			case !q.InLoop && len(terms) == 1 && nBase == 1:
 				c.Okf(rule, key, q.Pos(), "the start SELECT is stamped with the resume offset itself")
-			case q.InLoop && isSum && be.Op == token.ADD &&
-				(c03.IsSourceOffset(info, be.X) && isInc(be.Y) || c03.IsSourceOffset(info, be.Y) && isInc(be.X)):
+			case q.InLoop && len(terms) == 2 && nBase == 1 && nInc == 1:
 				c.Okf(rule, key, q.Pos(), "Offset = ds.sourceOffset + decoder position after this command")
-			case q.InLoop && c03.IsSourceOffset(info, off):
+			case q.InLoop && len(terms) == 1 && nBase == 1:
 				c.Failf(rule, key, q.Pos(), "the command is stamped with the base offset only: every checkpoint stores the start offset, so a restart replays the whole stream since the start (commands applied twice)")
-			case q.InLoop && isInc(off):
+			case q.InLoop && len(terms) == 1 && nInc == 1:
 				c.Failf(rule, key, q.Pos(), "the command is stamped with the decoder position without the start offset: the stored offset is not a source replication offset and PSYNC after restart fails or jumps")
 			default:
 				c.Undecidedf(rule, key, q.Pos(), "Offset `%s` is not `ds.sourceOffset + <second result of MustDecodeOpt>`", c.Src(off))
@@ -900,10 +989,33 @@ func r5(c *core.Ctx, p *c03.Parser) {
 		c.Undecidedf(rule, "Sync/load", syncFn.Decl.Pos(), "no `runId, offset, dbid, err = checkpoint.LoadCheckpoint(...)` in Sync")
 		return
 	}
+	// a value "comes from result #k of the load" when that is one of its origins (copies through temporaries are followed)
+	loadCall := ast.Unparen(anchor.Rhs[0])
+	fromLoad := func(e ast.Expr, res int) bool {
+		for _, o := range c03.Origins(info, syncFn.Decl, e) {
+			if o.Expr != nil && ast.Unparen(o.Expr) == loadCall && o.Res == res {
+				return true
+			}
+		}
+		return false
+	}
+	onlyFromLoad := func(e ast.Expr, res int) bool {
+		k := 0
+		for _, o := range c03.Origins(info, syncFn.Decl, e) {
+			if o.Zero {
+				continue
+			}
+			k++
+			if o.Expr == nil || ast.Unparen(o.Expr) != loadCall || o.Res != res {
+				return false
+			}
+		}
+		return k > 0
+	}
 	offOK, offUnknown := c03.IsSourceOffset(info, load.Lhs[1]), false
 	if lid, ok := ast.Unparen(load.Lhs[1]).(*ast.Ident); ok && lid.Name != "_" && anchor == load {
 		for _, wr := range c03.FieldWrites(c, c03.Syncer, "sourceOffset") {
-			if wr.In.Lit == nil && wr.In.Decl == syncFn.Decl && wr.Rhs != nil && c03.IsObj(info, core.ObjOf(info, lid))(wr.Rhs) {
+			if wr.In.Lit == nil && wr.In.Decl == syncFn.Decl && wr.Rhs != nil && (c03.IsObj(info, core.ObjOf(info, lid))(wr.Rhs) || wr.Res < 0 && onlyFromLoad(wr.Rhs, 1)) {
 				offOK = true
 			}
 		}
@@ -930,8 +1042,6 @@ func r5(c *core.Ctx, p *c03.Parser) {
 		c.Undecidedf(rule, "Sync/psync-call", syncFn.Decl.Pos(), "Sync does not call sendPSyncCmd, or the LoadCheckpoint results are not bound to locals")
 		return
 	}
-	// a value "comes from result #k of the load" when that is one of its origins (copies through temporaries are followed)
-	loadCall := ast.Unparen(anchor.Rhs[0])
 	runRes := 0
 	if anchor != load {
 		for i, l := range anchor.Lhs {
@@ -939,14 +1049,6 @@ func r5(c *core.Ctx, p *c03.Parser) {
 				runRes = i
 			}
 		}
-	}
-	fromLoad := func(e ast.Expr, res int) bool {
-		for _, o := range c03.Origins(info, syncFn.Decl, e) {
-			if o.Expr != nil && ast.Unparen(o.Expr) == loadCall && o.Res == res {
-				return true
-			}
-		}
-		return false
 	}
 	argIdx := -1
 	for i, a := range pcall.Args {
@@ -960,16 +1062,29 @@ func r5(c *core.Ctx, p *c03.Parser) {
 	default: // the run id may travel through another local
 		c.Undecidedf(rule, "Sync/runid-to-psync", pcall.Pos(), "the run id loaded from the checkpoint is not passed to sendPSyncCmd directly")
 	}
+	// writes of ds.sourceOffset through a pointer local (`p := &ds.sourceOffset; *p = v`)
+	ptrWrites := map[ast.Node]c03.FieldWrite{}
+	for _, wr := range c03.FieldWrites(c, c03.Syncer, "sourceOffset") {
+		if wr.In.Lit == nil && wr.In.Decl == syncFn.Decl && wr.Tok != token.AND {
+			ptrWrites[wr.Stmt] = wr
+		}
+	}
 	clobber := func(n ast.Node) bool {
 		if n == ast.Node(anchor) || isPsyncCall(n) {
 			return false
+		}
+		if wr, ok := ptrWrites[n]; ok {
+			if as, isAs := n.(*ast.AssignStmt); !isAs || !anyLhs(as, func(l ast.Expr) bool { return c03.IsSourceOffset(info, l) }) {
+				// not visible as a plain field assignment below
+				return !(wr.Tok == token.ASSIGN && wr.Res < 0 && wr.Rhs != nil && anchor == load && onlyFromLoad(wr.Rhs, 1))
+			}
 		}
 		switch x := n.(type) {
 		case *ast.AssignStmt:
 			for i, l := range x.Lhs {
 				if c03.IsSourceOffset(info, l) && len(x.Lhs) == len(x.Rhs) {
 					// storing the loaded offset itself is the wiring, not a clobber
-					if lid, ok := ast.Unparen(load.Lhs[1]).(*ast.Ident); ok && anchor == load && c03.IsObj(info, core.ObjOf(info, lid))(x.Rhs[i]) {
+					if lid, ok := ast.Unparen(load.Lhs[1]).(*ast.Ident); ok && anchor == load && (c03.IsObj(info, core.ObjOf(info, lid))(x.Rhs[i]) || onlyFromLoad(x.Rhs[i], 1)) {
 						continue
 					}
 				}
